@@ -77,6 +77,7 @@ func (w *World) oracleRelayer(bi *BlockInfo) {
 	n := len(prel.Voters)
 	seq := prev.Relayer.Sequence
 	acceptedVoted := 0
+	failedVoted := 0
 	anyRelayerOK := false
 	btcTip := m.Btc.Tip          // voted bitcoin tip before each transaction (oracleBitcoin runs after this oracle)
 	touched := map[uint64]bool{} // withdrawal ids named by earlier relayer transactions of this block
@@ -132,6 +133,7 @@ func (w *World) oracleRelayer(bi *BlockInfo) {
 			}
 			vote := vm.GetVote()
 			if !ok {
+				failedVoted++
 				if truth != nil && truth.Honest && truth.Epoch == prel.Epoch && truth.Seq == seq && truth.Proposer == prel.Proposer {
 					w.probe("honest-vote-rejected-in-context")
 					if hm, isH := mm.(*bitcointypes.MsgNewBlockHashes); isH && hm.StartBlockNumber == btcTip+1 && truth.Variant == "" {
@@ -239,6 +241,10 @@ func (w *World) oracleRelayer(bi *BlockInfo) {
 	// one leaves it as it was
 	if crelx := cur.Relayer.Relayer; !prel.ProposerAccepted && crelx.ProposerAccepted && crelx.Epoch == prel.Epoch && !anyRelayerOK {
 		w.violate("C02", "accepted-flag-raised-without-accepted-message", "accepted-flag", "height %d: the proposer-accepted flag went false -> true in epoch %d although no relayer or bridge transaction succeeded in this block", b.Height, prel.Epoch)
+		if failedVoted > 0 {
+			// C01: a voted proposal that did not take effect changes no state at all
+			w.violate("C01", "rejected-proposal-changed-state", "accepted-flag", "height %d: %d voted proposals were rejected in this block and nothing else succeeded, yet the proposer-accepted flag went false -> true", b.Height, failedVoted)
+		}
 	}
 	if crelx := cur.Relayer.Relayer; prel.ProposerAccepted && !crelx.ProposerAccepted && crelx.Epoch == prel.Epoch {
 		w.violate("C02", "accepted-flag-dropped-without-election", "accepted-flag-dropped", "height %d: the proposer-accepted flag went true -> false within epoch %d", b.Height, prel.Epoch)
@@ -325,6 +331,15 @@ func (w *World) oracleRelayer(bi *BlockInfo) {
 		if v != crel.Proposer && !seen[v] {
 			w.probe("voter-left")
 			delete(m.Rel.Registered, v)
+		}
+	}
+	// a registration is spent when the member's record goes away, whichever way it left (a member
+	// whose address already had an account is queued for off-boarding at registration and never
+	// appears in the voter list at all)
+	for _, a := range sortedKeys(m.Rel.Registered) {
+		if cur.Voters[a] == nil {
+			delete(m.Rel.Registered, a)
+			w.probe("registered-member-record-deleted")
 		}
 	}
 	// activity within an epoch only by recorded members
